@@ -214,7 +214,7 @@ pub fn def() -> PropDef {
     PropDef {
         id: "C03",
         level: "exploration",
-        rule: "histories as in C02 plus a large-file profile (streams of 60 KiB - 1.2 MiB, thorough 9 MiB, hundreds of small streams, remove/recreate churn); the independent MS-CFB checker (harness/src/refparse.rs, no cfb code) judges the raw byte image after every op (every 8th in the large profile) and at the end. Scenario steps: a version-3 file grown by the library to 32.4 MB (four DIFAT sectors) and a version-4 file grown past 4 GiB on a sparse backend (1030 FAT sectors, a DIFAT sector, offsets beyond 2^32), both judged by the checker and reopened in both modes. Non-trivial = the final image has >=2 FAT sectors or a DIFAT sector or >=2 directory sectors or >=2 MiniFAT sectors (measured by the parser), and some chain was freed and another allocated afterwards; distinct = distinct case JSON.",
+        rule: "histories as in C02 plus a large-file profile (streams of 60 KiB - 1.2 MiB, thorough 9 MiB, hundreds of small streams, remove/recreate churn); the independent MS-CFB checker (harness/src/refparse.rs, no cfb code) judges the raw byte image after every op (every 8th in the large profile) and at the end. Scenario steps: a version-3 file grown by the library to 32.4 MB (four DIFAT sectors) and a version-4 file grown past 4 GiB on a sparse backend (1030 FAT sectors, a DIFAT sector, offsets beyond 2^32), both judged by the checker and reopened in both modes. Non-trivial = the final image has >=2 FAT sectors or a DIFAT sector or >=2 directory sectors or >=2 MiniFAT sectors (measured by the parser), and some chain was freed and another allocated afterwards; distinct = distinct case JSON. Thorough tier: libFuzzer campaign fz_hist over byte-encoded histories (16-byte record per op) with this same runner and oracle.",
         assumptions: &["core rules R01-R31 of DESIGN.md 3.3 are the clauses of the property statement; advisory rules never fail", "checker validated by hand-built negative images in the replay tier and by the synthesizer's images"],
         quick_cases: 700,
         thorough_cases: 8000,
